@@ -332,6 +332,7 @@ fn run<A: Cont>(len: usize, toks: &[&str]) -> String {
                 "wprobe" | "rprobe" => {
                     if idx >= slots.len() { return "noslot".into(); }
                     let off: usize = arg.parse().unwrap_or(0);
+                    if let Reg::Gone = slots[idx].r { return "n/a".into(); } // a dropped region has no pages of its own any more
                     let (ptr, l) = (slots[idx].ptr, slots[idx].len);
                     if l == 0 || off >= l { return "n/a".into(); }
                     let p = (ptr + off) as *mut u8;
@@ -343,6 +344,7 @@ fn run<A: Cont>(len: usize, toks: &[&str]) -> String {
                 }
                 "gprobe" => {
                     if idx >= slots.len() { return "noslot".into(); }
+                    if let Reg::Gone = slots[idx].r { return "n/a".into(); }
                     let (ptr, l) = (slots[idx].ptr, slots[idx].len);
                     if l == 0 { return "n/a".into(); }
                     let pg = page();
